@@ -10,7 +10,7 @@ from __future__ import annotations
 import ast
 import json
 import os
-from typing import Dict, List, Optional, Set, Tuple
+from typing import Any, Dict, List, Optional, Set, Tuple
 
 from .cfg import CFG, ExcTable, exc_class_of
 from .flow import Flow
@@ -515,3 +515,201 @@ def _required_keys(fi: FuncInfo) -> Set[str]:
             if node.body and isinstance(node.body[0], ast.Raise):
                 req.add(node.test.left.value)
     return req
+
+
+# ------------------------------------------------ optional results are checked
+def _none_positions(fi: FuncInfo) -> Set[int]:
+    """Positions at which the function explicitly returns None: -1 = the whole result, i = element i of a tuple."""
+    out: Set[int] = set()
+    if isinstance(fi.node, ast.Lambda):
+        return out
+    for node in ast.walk(fi.node):
+        if isinstance(node, ast.Return):
+            v = node.value
+            if v is None or (isinstance(v, ast.Constant) and v.value is None):
+                out.add(-1)
+            elif isinstance(v, ast.Tuple):
+                for i, e in enumerate(v.elts):
+                    if isinstance(e, ast.Constant) and e.value is None:
+                        out.add(i)
+    return out
+
+
+def _derefs_param(fi: FuncInfo, p: str) -> bool:
+    """Does the function use parameter p as an object (attribute / method / subscript) without testing it for None?"""
+    tests = False
+    uses = False
+    for node in ast.walk(fi.node):
+        if isinstance(node, ast.Compare) and isinstance(node.left, ast.Name) and node.left.id == p and any(isinstance(o, (ast.Is, ast.IsNot)) for o in node.ops):
+            tests = True
+        if isinstance(node, (ast.If, ast.IfExp, ast.While)) and isinstance(node.test, ast.Name) and node.test.id == p:
+            tests = True
+        if isinstance(node, ast.UnaryOp) and isinstance(node.op, ast.Not) and isinstance(node.operand, ast.Name) and node.operand.id == p:
+            tests = True
+        if isinstance(node, (ast.Attribute, ast.Subscript)) and isinstance(node.value, ast.Name) and node.value.id == p:
+            uses = True
+    return uses and not tests
+
+
+def rule_optional_results(ctx: Ctx, rule: str = "optional-result-unchecked") -> None:
+    """A value that a callee may return as None ('declined' / 'unbounded') is tested before it is used as an object:
+    otherwise AttributeError / TypeError escapes instead of a documented error."""
+    from .pathsim import Sim, mentions, show as vshow
+
+    prog = ctx.prog
+    producers: Dict[str, Set[int]] = {}
+    for fi in prog.all_functions():
+        pos = _none_positions(fi)
+        # procedures (every return is None / no return value) are not 'optional results'
+        if pos and not isinstance(fi.node, ast.Lambda):
+            rets = [n for n in ast.walk(fi.node) if isinstance(n, ast.Return)]
+            if all(r.value is None or (isinstance(r.value, ast.Constant) and r.value.value is None) for r in rets):
+                continue
+            producers[fi.key] = pos
+    byname: Dict[str, List[str]] = {}
+    for k in producers:
+        byname.setdefault(k.split(".")[-1], []).append(k)
+    n_sites = 0
+    for fi in prog.all_functions():
+        if isinstance(fi.node, ast.Lambda):
+            continue
+        called = set()
+        for node in ast.walk(fi.node):
+            if isinstance(node, ast.Call):
+                nm = node.func.attr if isinstance(node.func, ast.Attribute) else node.func.id if isinstance(node.func, ast.Name) else None
+                if nm in byname:
+                    called.add(nm)
+                if isinstance(node.func, ast.Subscript) and "TACTICS" in norm(node.func):
+                    called.add("_tactic_4")
+        if not called:
+            continue
+        try:
+            paths = Sim(prog, fi, loop_iters=(0, 1), max_paths=6000).paths()
+        except AnalysisError:
+            ctx.cannot_decide(rule, fi.key, "paths", "too many paths to follow optional results")
+            continue
+        reported = set()
+        for p in paths:
+            checked: Set[Any] = set()
+            optional: Dict[Any, str] = {}
+            for e in p.events:
+                if e["kind"] == "call":
+                    cal = e["callee"]
+                    nm = cal.split(".")[-1].rstrip("[]")
+                    keys = byname.get(nm, [])
+                    if "TACTICS" in cal:
+                        keys = byname.get("_tactic_4", [])
+                    for k in keys:
+                        for pos in producers[k]:
+                            v = e["result"] if pos == -1 else ("item", e["result"], pos)
+                            optional[v] = k
+                    # use of an optional value as receiver or as a dereferenced argument
+                    for v, src in list(optional.items()):
+                        if v in checked:
+                            continue
+                        used = None
+                        if e.get("recv") is not None and e["recv"] == v:
+                            used = "method call on it"
+                        else:
+                            callee_fi = prog.funcs.get(e["f"][1]) if e["f"][0] == "func" else None
+                            cands = [callee_fi] if callee_fi is not None else [prog.funcs[k2] for k2 in prog.funcs if k2.endswith("." + nm) and e["f"][0] == "attr"]
+                            for c in cands:
+                                params = c.params[1:] if c.kind in ("method", "property") and e["f"][0] == "attr" else c.params
+                                bound = list(zip(params, e["args"])) + [(kname, val) for kname, val in e["kws"]]
+                                for pn, av in bound:
+                                    if av == v and _derefs_param(c, pn):
+                                        used = "passed to %s, which uses its parameter '%s' as an object" % (c.key, pn)
+                        if used:
+                            n_sites += 1
+                            key_ = (fi.key, norm(e["node"])[:80])
+                            if key_ not in reported:
+                                reported.add(key_)
+                                ctx.violation(
+                                    rule,
+                                    fi.key,
+                                    "optional result of %s used unchecked: %s" % (src, norm(e["node"])[:70]),
+                                    "%s may return None there; on path [%s] the value reaches `%s` (%s) without an `is None` test: AttributeError/TypeError escapes" % (src, p.label()[:120], norm(e["node"])[:80], used),
+                                    where="%s:%d" % (fi.module.relpath, e["node"].lineno),
+                                )
+                elif e["kind"] == "branch":
+                    t = e["test"]
+                    for v in list(optional):
+                        if mentions(t, lambda x, v=v: x == v):
+                            checked.add(v)
+        ctx.ok(rule, fi.key, "%s tests optional results (%s) before using them as objects" % (fi.key, ", ".join(sorted(called))), nontrivial=True) if not reported else None
+    ctx.extra["optional_producers"] = {k: sorted(v) for k, v in producers.items()}
+    ctx.floor("functions returning an optional result", len(producers), 2)
+
+
+def rule_validator_types(ctx: Ctx, rule: str = "validator-types") -> None:
+    """What from_dict feeds to float() / iterates as a dict must have been type-checked by the clause validator:
+    otherwise a field 'of the wrong kind' escapes as TypeError instead of ContractFormatError / ValueError."""
+    prog = ctx.prog
+    chk = prog.func("serializer._check_clause")
+    fd = prog.func("PolyhedralIoContract.from_dict")
+    p0 = chk.params[0]
+    numeric = ("int", "float", "Number", "Real", "numeric")
+
+    def isinstance_tests(pred) -> List[ast.Call]:
+        out = []
+        for node in ast.walk(chk.node):
+            if isinstance(node, ast.Call) and isinstance(node.func, ast.Name) and node.func.id == "isinstance" and len(node.args) == 2 and pred(node):
+                out.append(node)
+        return out
+
+    def guarded_raise(call: ast.Call) -> bool:
+        # the isinstance test occurs (possibly negated / inside a boolean expression) in an `if` that raises ContractFormatError
+        for node in ast.walk(chk.node):
+            if isinstance(node, ast.If) and any(x is call for x in ast.walk(node.test)):
+                for st in node.body + node.orelse:
+                    for r in ast.walk(st):
+                        if isinstance(r, ast.Raise) and exc_class_of(r.exc) in ("ContractFormatError", "ValueError"):
+                            return True
+        return False
+
+    # what from_dict does with clause fields
+    uses = {"float(constant)": False, "coefficients.items()": False, "coefficient values as numbers": False}
+    for node in ast.walk(fd.node):
+        t = norm(node)
+        if isinstance(node, ast.Call) and norm(node.func) == "float" and "['constant']" in t:
+            uses["float(constant)"] = True
+        if isinstance(node, ast.Call) and t.endswith("['coefficients'].items()"):
+            uses["coefficients.items()"] = True
+            uses["coefficient values as numbers"] = True  # PolyhedralTerm.__init__ applies float() to every value
+    checks = [
+        ("a clause that is not a dictionary is rejected", True, lambda c: isinstance(c.args[0], ast.Name) and c.args[0].id == p0 and "dict" in norm(c.args[1])),
+        ("a constant that is not a number is rejected", uses["float(constant)"], lambda c: any(n in norm(c.args[1]) for n in numeric) and not _is_values_loop_var(chk, c.args[0])),
+        ("coefficients that are not a dictionary are rejected", uses["coefficients.items()"], lambda c: "dict" in norm(c.args[1]) and not (isinstance(c.args[0], ast.Name) and c.args[0].id == p0)),
+        ("a coefficient that is not a number is rejected", uses["coefficient values as numbers"], lambda c: any(n in norm(c.args[1]) for n in numeric) and _is_values_loop_var(chk, c.args[0])),
+    ]
+    n = 0
+    for label, needed, pred in checks:
+        if not needed:
+            continue
+        n += 1
+        construct = "_check_clause: %s" % label
+        tests = [c for c in isinstance_tests(pred) if guarded_raise(c)]
+        if tests:
+            ctx.ok(rule, chk.key, construct)
+        else:
+            ctx.violation(rule, chk.key, construct, "no such type check before from_dict converts the field: a machine dictionary with that field of the wrong kind escapes as TypeError", where=chk.where)
+    ctx.floor("clause field type checks needed", n, 3)
+
+
+def _is_values_loop_var(fi: FuncInfo, e: ast.AST) -> bool:
+    """Is e a variable ranging over the values of a dictionary (for v in d.values() / for k, v in d.items())?"""
+    if not isinstance(e, ast.Name):
+        return False
+    for node in ast.walk(fi.node):
+        gens = []
+        if isinstance(node, ast.For):
+            gens.append((node.target, node.iter))
+        elif isinstance(node, (ast.ListComp, ast.GeneratorExp, ast.SetComp)):
+            gens += [(g.target, g.iter) for g in node.generators]
+        for tgt, it in gens:
+            t = norm(it)
+            if t.endswith(".values()") and isinstance(tgt, ast.Name) and tgt.id == e.id:
+                return True
+            if t.endswith(".items()") and isinstance(tgt, ast.Tuple) and len(tgt.elts) == 2 and isinstance(tgt.elts[1], ast.Name) and tgt.elts[1].id == e.id:
+                return True
+    return False
